@@ -348,7 +348,7 @@ class C16(Prop):
         case = case_from_cfg(rng, cfg)
         # call history on one TraceAnalysis object: the ranks asked for, in order; the LAST call is the one that is validated
         n = len(case["ranks"])
-        case["calls"] = [0] if n == 1 else rng.choice([[0], [1], [1], [0, 1], [1, 0], [0, 1, 0], [1, 0, 1]])
+        case["calls"] = [0] if n == 1 else rng.choice([[0], [1], [0, 1], [1, 0], [0, 1, 0], [0, 1, 0], [0, 1, 0], [1, 0, 1], [0, 1, 1, 0]])
         last = case["calls"][-1]
         names = sorted({e["name"] for e in case["ranks"][last]["events"] if e.get("cat") == "cpu_op"})
         case["op"] = rng.choice(names)
